@@ -182,12 +182,12 @@ class Pervaporation:
         """
 
         x = self.calculate_partial_fluxes(
-            feed_temperature,
-            composition,
-            precision,
-            permeate_temperature,
-            permeate_pressure,
-            calculation_type
+            feed_temperature=feed_temperature,
+            composition=composition,
+            precision=precision,
+            permeate_temperature=permeate_temperature,
+            permeate_pressure=permeate_pressure,
+            calculation_type=calculation_type,
         )
         return Composition(x[0] / numpy.sum(x), type=CompositionType.weight)
 
@@ -245,12 +245,12 @@ class Pervaporation:
             feed_compositions=compositions,
             partial_fluxes=[
                 self.calculate_partial_fluxes(
-                    feed_temperature,
-                    composition,
-                    precision,
-                    permeate_temperature,
-                    permeate_pressure,
-                    calculation_type,
+                    feed_temperature=feed_temperature,
+                    composition=composition,
+                    precision=precision,
+                    permeate_temperature=permeate_temperature,
+                    permeate_pressure=permeate_pressure,
+                    calculation_type=calculation_type,
                 )
                 for composition in compositions
             ],
